@@ -142,6 +142,7 @@ def run(replay=None):
         "the frame condition of the 12-byte stub (it changes only RIP and RDX) is C15's theorem; that ABIInternal hands the receiver and arguments unchanged is C01",
         "a collected closure is detected through finalizers on an object only the callback captures, and through crashes/garbage after heap churn; absence of a finalizer run proves nothing and is never used as a verdict",
         "generator discipline: a dropped builder is not used again",
+        "the whole-history theorem (C07_history_refines) covers histories in which each variable is mocked through one builder; the generator also lets two builders mock the same variable -- those histories are tied by the correspondence only",
     ]
     ok, failed, log = ck.prove(["Props/C07.vo"], label="Props/C07")
     if not ok:
